@@ -375,6 +375,11 @@ func (o *oracleState) c12(st *seqStep) {
 			if st.reply.Type != g.Rerror {
 				o.fail("msize-too-small-accepted", st, showFcall(st.reply))
 			}
+			// a refused Tversion negotiates nothing: msize and dialect stay what they were
+			if st.after.Msize != st.before.Msize || st.after.Dotu != st.before.Dotu {
+				o.fail("refused-version-changed-connection", st, fmt.Sprintf("connection was %d/%v, after the refused Tversion %d/%v",
+					st.before.Msize, st.before.Dotu, st.after.Msize, st.after.Dotu))
+			}
 			return
 		}
 		wantM := cm
@@ -391,6 +396,9 @@ func (o *oracleState) c12(st *seqStep) {
 			o.fail("negotiate", st, fmt.Sprintf("client msize %d ver %q, server %d/%s -> %s, conn %d/%v", cm, ver,
 				st.before.Msize, st.cfg[1], showFcall(st.reply), st.after.Msize, st.after.Dotu))
 		}
+	}
+	if t != "Tversion" && (st.after.Msize != st.before.Msize || st.after.Dotu != st.before.Dotu) {
+		o.fail("msize-changed-without-version", st, fmt.Sprintf("connection was %d/%v, after %s %d/%v", st.before.Msize, st.before.Dotu, t, st.after.Msize, st.after.Dotu))
 	}
 	// an I/O count the negotiated msize cannot carry is refused, never executed
 	if (t == "Tread" || t == "Twrite") && st.before.Msize >= g.IOHDRSZ {
